@@ -111,6 +111,7 @@ const dumpNode = (node, opts, out) => {
     const args = node._$wxTmplArgs
     if (args && args.key !== undefined) o.key = encode(args.key)
     if (args && args.keyList) o.keys = args.keyList.rawKeys.slice()
+    if (args && args.keyList && args.keyList.indexes) o.idx = args.keyList.indexes.slice() // field names of an object list (null for arrays)
     if (node._$nodeSlot !== '') o.slotAttr = node._$nodeSlot
     takeLog(node, o)
     o.children = dumpChildren(node, opts)
